@@ -41,6 +41,8 @@ def configs(tier):
         for B in ((2,) if tier == "quick" else (2, 3)):
             # the batch carries BOTH a parameter batch (on kappa) and an observed equation parameter (theta): row i uses row i of each
             out.append(dict(term="obs", kind=kind, B=B, obs_eq=True, pbd=True, n_out=1, sl=None, w="scalar", H=H))
+            # ... and the parameter batch ALSO carries generated rows for the observed key theta: the observation term uses the observed rows
+            out.append(dict(term="obs", kind=kind, B=B, obs_eq=True, pbd="shared", n_out=1, sl=None, w="scalar", H=H))
     for kind in ("ode", "statio", "nonstatio"):
         for B in (1, 2, 3):
             for obs_eq in (False, True):
@@ -165,6 +167,7 @@ def run(cfg, R):
                "eq_params": ({"theta": jnp.arange(1, B + 1).reshape(B, 1) * 0.5} if obs_eq else {})}
         kw = dict(obs_slice=jnp.s_[sl[0]:sl[1]]) if sl is not None else {}
         pb = {"kappa": jnp.arange(1, B + 1).reshape(B, 1) * 0.7} if pbd else None
+        if pbd == "shared": pb["theta"] = jnp.arange(1, B + 1).reshape(B, 1) * 0.9 + 0.05
         if kind == "ode":
             loss = LossODE(u=u, dynamic_loss=None, loss_weights=LossWeightsODE(observations=w0), params=params, **kw)
             batch = ODEBatch(temporal_batch=jnp.array([0.5] * (B if pbd else 1)), obs_batch_dict=obs, param_batch_dict=pb)
@@ -174,7 +177,7 @@ def run(cfg, R):
         else:
             loss = LossPDENonStatio(u=u, dynamic_loss=None, loss_weights=LossWeightsPDENonStatio(observations=w0), params=params, **kw)
             batch = PDENonStatioBatch(times_x_inside_batch=jnp.ones((B if pbd else 1, 2)) * 0.4, times_x_border_batch=None, obs_batch_dict=obs, param_batch_dict=pb)
-        name = f"obs/{kind}/B{B}/{'obs-theta' if obs_eq else 'no-obs-param'}/out{n_out}/sl{sl}/{wk}" + (f"/sol{ss}" if ss else "") + ("/with-param-batch" if pbd else "")
+        name = f"obs/{kind}/B{B}/{'obs-theta' if obs_eq else 'no-obs-param'}/out{n_out}/sl{sl}/{wk}" + (f"/sol{ss}" if ss else "") + ("/with-param-batch" if pbd else "") + ("-shared-key" if pbd == "shared" else "")
         R.note(functions=["jinns.loss._loss_utils.observations_loss_apply[PINN]", "jinns.parameters._params._update_eq_params_dict", "_get_vmap_in_axes_params",
                           "jinns.loss.%s.evaluate" % {"ode": "LossODE", "statio": "LossPDEStatio", "nonstatio": "LossPDENonStatio"}[kind]])
         def oracle(A, variant=None):
@@ -184,7 +187,9 @@ def run(cfg, R):
             rows = []
             for i in range(B):
                 z = list(ob["pinn_in"][i])
-                if obs_eq:
+                if obs_eq and variant == "generated_theta":
+                    th = b_.param_batch_dict["theta"][i, 0]
+                elif obs_eq:
                     th = ob["eq_params"]["theta"][i if variant != "row0" else 0, 0]
                 else:
                     th = p.eq_params["theta"][()]
@@ -192,7 +197,7 @@ def run(cfg, R):
                 rows.append(tm.ssum([mul(w[j] if w.ndim else w[()], sq(sub(add(mul(D(p.nn_params, z, None, c), th), kap), ob["val"][i, j if variant != "valrev" else k - 1 - j])))
                                      for j, c in enumerate(comps)]))
             return mean(rows)
-        tname = "observations"; variants = (["row0"] if (obs_eq and B > 1) else []) + (["valrev"] if k > 1 else []) + (["kappa_row0"] if pbd else [])
+        tname = "observations"; variants = (["row0"] if (obs_eq and B > 1) else []) + (["valrev"] if k > 1 else []) + (["kappa_row0"] if pbd else []) + (["generated_theta"] if pbd == "shared" else [])
     else:
         raise ValueError(term)
 
